@@ -539,9 +539,13 @@ Definition new_session (b : N) (k : kind) (u : N) (c : N) : session :=
   mksess b k u None 0 (Some c) None [] [] 0
          (match k with KInternal false _ => 3 | _ => 0 end) 0 [] [] [] 0.
 
+(* the next session id: the counter of ids handed out so far, incremented (never an id in use) *)
+Definition max_key {V} (l : alist V) : N := fold_left (fun acc e => N.max acc (fst e)) l 0.
+Definition next_id (h : hub) : N := N.max h.(h_nextsid) (max_key h.(h_sessions)) + 1.
+
 (* processRegister after successful authentication *)
 Definition register (h : hub) (c : N) (cn : conn) (b : N) (k : kind) (u : N) : hub * list out :=
-  let sid := h.(h_nextsid) + 1 in
+  let sid := next_id h in
   let h0 := set_nextsid h sid in
   let limited := negb (is_internal k) && negb (N.eqb (limit_of h b) 0) in
   if limited && negb (match counted_of h b with [] => true | _ => false end)
@@ -998,7 +1002,7 @@ Definition do_internal (h : hub) (c sid : N) (s : session) (q : internalreq) : h
       match room_of h k with
       | None => (h, [])
       | Some r =>
-          let vs := h.(h_nextsid) + 1 in
+          let vs := next_id h in
           let h0 := set_nextsid h vs in
           let prev := pget h0.(h_vtable) (sid, v) in
           let incallfeat := match s.(s_kind) with KInternal f _ => f | _ => false end in
